@@ -3,7 +3,7 @@
 
   An `ST::string` is exactly one `ST::char_buffer` held by value (include/st_string.h:89-90), so a
   string with id `o` *is* the pool object `o`.  Every public operation is a do-block over the
-  buffer members, with the temporaries the C++ creates (ids `tmpA`, `tmpB`, `tmpC`, never used by
+  buffer members, with the temporaries the C++ creates (ids `tmpA` … `tmpD`, never used by
   histories) and with unwinding: a temporary that was constructed is destroyed when an exception
   passes through its scope (`withTemp`).
 
@@ -21,6 +21,7 @@ open StVerif StVerif.Pool
 def tmpA : Nat := 100
 def tmpB : Nat := 101
 def tmpC : Nat := 102
+def tmpD : Nat := 103
 
 /-- run `body` with temporary `t` alive; destroy `t` afterwards — also when `body` throws -/
 def withTemp {α : Type} (t : Nat) (body : M α) : M α := fun p =>
@@ -118,8 +119,8 @@ def appendStr (o s : Nat) : M Unit := do
 /-- `o += cstr` = `set(*this + cstr)`; `operator+(left, const char*)` = `left + string::from_utf8(right)`
     (default validation = `dflt`) -/
 def appendText (o : Nat) (us : List Nat) (dflt : Mode) : M Unit := do
-  ctorText tmpC us dflt
-  withTemp tmpC (do concatInto tmpB o tmpC; withTemp tmpB (assignMove o tmpB))
+  ctorText tmpD us dflt
+  withTemp tmpD (do concatInto tmpB o tmpD; withTemp tmpB (assignMove o tmpB))
 
 /-- `operator+(const string &left, char32_t right)` into `d`: allocate `size + utf8_measure(ch)`,
     copy, `write_utf8` — which fails above U+10FFFF after the allocation -/
